@@ -142,6 +142,20 @@ def predict_shift(cfg, k, tol=1e-6, q0=None):
         if err > tol and scale > 1e-200:
             out.append(dict(key='shift:' + name, what='%s is not the cyclic shift of the original after moving the origin by %d grid points (rel err %.3g)' % (name, k, err),
                             rel_err=err, cfg=jsonable(cfg), k=int(k)))
+    # the periodic interpolants of the axis and of the frame follow the shift: f1(x) = f0(x + k dphi)
+    xs = np.array([0.0, 0.3, 1.1, 2.9]) * (2 * np.pi / q0.nfp) / 3.0
+    dphi = 2 * np.pi / q0.nfp / n
+    for sp in ('R0_func', 'Z0_func', 'normal_R_spline', 'normal_phi_spline', 'normal_z_spline', 'binormal_R_spline', 'binormal_phi_spline',
+               'binormal_z_spline', 'tangent_R_spline', 'tangent_phi_spline', 'tangent_z_spline'):
+        f0, f1 = getattr(q0, sp, None), getattr(q1, sp, None)
+        if f0 is None or f1 is None:
+            continue
+        want, got = np.asarray(f0(xs + k * dphi), dtype=float), np.asarray(f1(xs), dtype=float)
+        checked += 1
+        # cubic splines through shifted nodes are the same interpolant (the node set is shift invariant)
+        if np.max(np.abs(want - got)) > 1e-8 * max(1.0, float(np.max(np.abs(want)))):
+            out.append(dict(key='shift:' + sp, what='%s is not the shifted interpolant after moving the origin by %d grid points (%.3g)' % (sp, k, np.max(np.abs(want - got))),
+                            cfg=jsonable(cfg), k=int(k)))
     # induced law for the Boozer angle
     per = 2 * np.pi / q0.nfp
     want = np.mod(np.roll(q0.varphi, -k) - q0.varphi[k], per)
